@@ -35,6 +35,9 @@ class Poly:
         return Poly({((a, 1),): Fr(1)})
 
     def __add__(self, o):
+        BUDGET[0] -= len(self.d) + len(o.d)
+        if BUDGET[0] < 0:
+            raise Inconclusive('term budget exhausted')
         d = dict(self.d)
         for k, v in o.d.items():
             d[k] = d.get(k, 0) + v
